@@ -50,9 +50,9 @@ ENGINE = "direct"
 TECHNIQUE = "real bash/dash execution of the exported strings in a stub jail (+strace sample), POSIX-quoting model, curl/httpie argv model, HTTP/1 reference parse"
 BUDGET = {"quick": (400, 12), "thorough": (40_000, 200)}
 WORKERS = {"quick": 6, "thorough": 16}
-REQUIRED = ["shell_exec", "shell_model", "argv_semantics", "raw_parse_back", "channel.file", "channel.func", "text_channels"]
+REQUIRED = ["matrix_cases", "shell_exec", "shell_model", "argv_semantics", "raw_parse_back", "channel.file", "channel.func", "text_channels"]
 RULE = (
-    "case = request built from (method, scheme, host, default/non-default port, path+query, Host header in {absent, host, host:port, host:otherport, otherhost, otherhost:port}, 0-5 headers, body kind, content-encoding, "
+    "first a fixed matrix (bodies starting with - or @, with control characters / NUL / trailing newlines / % / backslashes / non-ASCII / binary; header-name and empty-value edge cases; 6 Host forms x default/non-default port x scheme; method, path and framing specials) split over the workers, then random cases; case = request built from (method, scheme, host, default/non-default port, path+query, Host header in {absent, host, host:port, host:otherport, otherhost, otherhost:port}, 0-5 headers, body kind, content-encoding, "
     "http version, preserve-original-ip option) with shell metacharacters, quotes, control characters, %, backslashes, leading -/@, "
     "non-ASCII and raw non-UTF-8 bytes (header values, request target, binary bodies); each case: every export through all four public channels (functions, export, export.file, export.clip), all three exports through the quoting model and the raw export through "
     "the HTTP/1 reference, one export (rotating curl/bash, curl/dash, httpie/bash) executed by a real shell; distinct = distinct "
@@ -340,9 +340,21 @@ class Jail:
         with open(src, "w") as fp:
             fp.write(STUB_C)
         ok = False
+        # the compiled stub is cached across workers/runs (keyed by its source); built atomically
+        import hashlib
+
+        cache = os.path.join(tempfile.gettempdir(), "vf-c48-stub-" + hashlib.sha1(STUB_C.encode()).hexdigest()[:12])
         try:
-            p = subprocess.run(["/usr/bin/gcc", "-O1", "-o", exe, src], capture_output=True, timeout=60, stdin=subprocess.DEVNULL)
-            ok = p.returncode == 0 and os.path.exists(exe)
+            if not os.path.exists(cache):
+                p = subprocess.run(["/usr/bin/gcc", "-O1", "-o", exe, src], capture_output=True, timeout=60, stdin=subprocess.DEVNULL)
+                if p.returncode == 0 and os.path.exists(exe):
+                    tmp = cache + f".{os.getpid()}"
+                    shutil.copy(exe, tmp)
+                    os.chmod(tmp, 0o755)
+                    os.replace(tmp, cache)
+            if os.path.exists(cache):
+                shutil.copy(cache, exe)
+                ok = True
         except Exception:
             ok = False
         for name in STUBS:
@@ -833,6 +845,81 @@ def to_script(cmd: str) -> bytes:
     return cmd.encode("utf-8", "surrogateescape")
 
 
+# ------------------------------------------------------------------------------------------------
+# fixed matrix: the deciding input classes, enumerated before the random cases in every run (split over the workers)
+# ------------------------------------------------------------------------------------------------
+
+def base_spec(**kw):
+    sp = {
+        "method": "POST", "scheme": "http", "host": "example.com", "port": 80, "path": "/p?a=1", "netloc": "example.com",
+        "host_header": "example.com", "hh_form": "host", "authority": "", "headers": [("X-Test", "v"), ("Content-Type", "text/plain; charset=utf-8")],
+        "body": b"", "body_kind": "none", "gzip": False, "has_cl": True, "version": "HTTP/1.1", "preserve_ip": False, "peer": None, "raw8": False,
+    }
+    sp.update(kw)
+    if "netloc" not in kw:
+        sp["netloc"] = sp["host"] if sp["port"] == default_port(sp) else f"{sp['host']}:{sp['port']}"
+    return sp
+
+
+def matrix():
+    """[(spec, form)] -- small and fixed; every class that decides one of the recorded findings, mutants or seeds."""
+    out = []
+    bodies = [
+        ("dash+ctl", b"-v\nx"), ("dash+ctl2", b"-d\x01"), ("dash-plain", b"-v"), ("at", b"@file"), ("at+ctl", b"@f\nx"), ("nul", b"a\x00b"),
+        ("nl1", b"line\n"), ("nl2", b"line\n\n"), ("crlf", b"a\r\nb\r\n"), ("pct+ctl", b"a%sb%d\n"), ("pct-end", b"100%\n"), ("bs+ctl", b"a\\nb\\x41\\\n"),
+        ("bs-plain", b"a\\nb"), ("utf8+ctl", "caf\u00e9\n".encode()), ("utf8", "caf\u00e9=\u65e5\u672c".encode()), ("binary", b"\xff\x00\xfe"), ("plain", b"k=v&x=1"),
+        ("quotes+ctl", b"'q'\"d\"\n"), ("subst+ctl", b"$(touch PWNED)`touch PWNED`\n;touch PWNED\n"), ("tab", b"a\tb"), ("ctl-only", b"\x01"),
+    ]
+    for name, body in bodies:
+        for form in ("curl-bash", "httpie-bash") + (("curl-dash",) if name in ("dash+ctl", "nl1", "pct+ctl", "plain") else ()):
+            out.append((base_spec(body=body, body_kind="m:" + name, matrix="body:" + name), form))
+    hdr_sets = [
+        [("X-Empty", ""), ("X-Blank", "  "), ("X-Lead", "   v"), ("X-Trail", "v  "), ("Accept-Encoding", "gzip"), ("X-Dup", "1"), ("X-Dup", "2")],
+        [("@file", "x"), ("-H", "y"), ("a=b", "c"), ("a;b", "c"), ("a@b", "c"), ("a\\:b".replace(":", ""), "c"), ("X-Q", "'\"$(touch PWNED)`id`; touch PWNED\n touch PWNED\n"), ("X-Pct", "%s%d\\n")],
+    ]
+    for k, hs in enumerate(hdr_sets):
+        for form in ("curl-bash", "httpie-bash", "curl-dash"):
+            out.append((base_spec(headers=hs, method="PUT", raw8=(k == 0), matrix=f"headers:{k}"), form))
+    forms = ["curl-bash", "httpie-bash"]
+    n = 0
+    for scheme, port in (("http", 80), ("http", 8080), ("https", 443), ("https", 8443)):
+        for hh_form in ("absent", "host", "host:port", "host:otherport", "otherhost", "otherhost:port"):
+            hh = {"absent": None, "host": "example.com", "host:port": f"example.com:{port}", "host:otherport": "example.com:9999", "otherhost": "other.example.net", "otherhost:port": f"other.example.net:{port}"}[hh_form]
+            out.append((base_spec(scheme=scheme, port=port, host_header=hh, hh_form=hh_form, method="GET", matrix=f"host:{scheme}:{port}:{hh_form}", preserve_ip=(n % 3 == 0), peer=("10.9.8.7", port)), forms[n % 2]))
+            n += 1
+    for name, kw in [
+        ("get+body", dict(method="GET", body=b"k=v", body_kind="m:plain")), ("m-search", dict(method="M-SEARCH")), ("hostile-method", dict(method="X;TOUCH PWNED;$(ID)")),
+        ("glob", dict(path="/a{b,c}/[1-3]")), ("dotseg", dict(path="/a/../b/./c")), ("fragment", dict(path="/a#frag")), ("space", dict(path="/a b")),
+        ("rawbyte", dict(path="/caf\udce9?x=\udcff")), ("meta-path", dict(path="/'\"$(touch PWNED)`id`;&|<>*?~!/x")), ("gzip", dict(body=b"a=1\n", body_kind="m:nl1", gzip=True)),
+        ("h2", dict(version="HTTP/2.0", authority="example.com", host_header=None, hh_form="absent")), ("nocl", dict(body=b"abc", body_kind="m:plain", has_cl=False)),
+        ("chunked", dict(body=b"hello chunked body, longer than sixteen bytes", body_kind="m:plain", has_cl=False, headers=[("Transfer-Encoding", "chunked"), ("X-Test", "v")])),
+        ("utf8-nocharset", dict(body="caf\u00e9".encode(), body_kind="m:utf8", headers=[("X-Test", "v")])), ("utf8-latin1", dict(body="caf\u00e9".encode(), body_kind="m:utf8", headers=[("Content-Type", "text/plain; charset=ISO-8859-1")])),
+    ]:
+        for form in forms:
+            out.append((base_spec(matrix="misc:" + name, **kw), form))
+    return out
+
+
+def work_items(ctx):
+    """Matrix items of this worker first, then the random cases (time/count budget applies to the random part only)."""
+    forms = ["curl-bash", "curl-dash", "httpie-bash"]
+    mx = matrix()
+    if ctx.only_case is not None and ctx.only_case < 0:
+        k = -ctx.only_case - 1
+        ctx.case_index = ctx.only_case
+        yield ("matrix", k, ctx.case_rng(k, "matrix"), mx[k][0], mx[k][1])
+        return
+    if ctx.only_case is None:
+        for k, (sp, form) in enumerate(mx):
+            if k % ctx.nworkers == ctx.worker:
+                ctx.case_index = -(k + 1)
+                ctx.count("matrix_cases")
+                yield ("matrix", k, ctx.case_rng(k, "matrix"), sp, form)
+    for i in ctx.cases():
+        r = ctx.rng
+        yield ("random", i, r, gen_spec(r), forms[(i + ctx.worker) % 3])
+
+
 def run(ctx):
     jail = Jail()
     e = export.Export()
@@ -840,13 +927,10 @@ def run(ctx):
     try:
         with taddons.context(e) as tctx:
             ch = Channels(e, jail.root)
-            for i in ctx.cases():
-                r = ctx.rng
-                sp = gen_spec(r)
+            for tag, i, r, sp, form in work_items(ctx):
                 exp = expected(sp)
                 f = build_flow(sp)
                 tctx.configure(e, export_preserve_original_ip=sp["preserve_ip"])
-                form = ["curl-bash", "curl-dash", "httpie-bash"][(i + ctx.worker) % 3]
                 outcome = []
                 cmds = {}
                 text = body_text(sp)
@@ -895,9 +979,14 @@ def run(ctx):
                 # ---- one real shell execution
                 kind, shell = form.split("-")
                 cmd = cmds[kind]
+                if cmd is not None and tag == "matrix" and ctx.time_left() < 0.25 * ctx.seconds:
+                    # machine too slow for the whole matrix within the tier's budget: the remaining matrix items are decided by the
+                    # quoting/printf model only (it evaluates mitmproxy's own printf encoding), the real shell by the random part
+                    ctx.count("matrix_shell_skipped")
+                    cmd = None
                 if cmd is not None:
                     ctx.count("shell_exec")
-                    trace = (i % 10) == 0
+                    trace = tag == "random" and (i % 20) == 0
                     res = ctx_run(ctx, jail, to_script(cmd), shell, trace)
                     if res is not None:
                         stub = "curl" if kind == "curl" else "http"
@@ -943,7 +1032,7 @@ def run(ctx):
                 specials = tuple(sorted({("empty" if strip_ows(v) == "" else "ae" if n.lower() == "accept-encoding" else "at" if n.startswith("@") else "") for n, v in sp["headers"]} - {""}))
                 nontrivial = bool(feats["m"] or feats["p"] or feats["h"] or sp["body_kind"] not in ("none",))
                 union = tuple(sorted(set(feats["m"]) | set(feats["p"]) | set(feats["h"])))
-                sig = (form, bool(feats["m"]), union, sp["body_kind"], specials, sp["hh_form"], sp["port"] == default_port(sp))
+                sig = (tag if tag == "random" else sp.get("matrix"), form, bool(feats["m"]), union, sp["body_kind"], specials, sp["hh_form"], sp["port"] == default_port(sp))
                 ctx.case(sig, nontrivial=nontrivial, sample={"form": form, "cmd": short(cmds.get(kind) or "", 400), "method": sp["method"], "path": sp["path"], "body_kind": sp["body_kind"]})
     finally:
         if ch is not None:
